@@ -249,7 +249,11 @@ Qed.
 Theorem deadline_send_readback s T c r c' :
   (0 <= T)%Z -> slow c = None -> send s true (Some T) c = (r, c') ->
   (nowc c' <= nowc c + T)%Z /\ (r = ETimeout -> nowc c' = (nowc c + T)%Z) /\ r <> EBlocked.
-Proof. intros HT Hs E. apply send_loop_deadline in E; auto. unfold nowc; lia. Qed.
+Proof.
+  intros HT Hs E. unfold send in E. destruct (any_in (blacklist c) s).
+  - injection E as <- <-. split; [lia|]. split; [discriminate | discriminate].
+  - apply send_loop_deadline in E; auto. unfold nowc; lia.
+Qed.
 
 (* ---- no timeout given: TimeoutError is never raised ---- *)
 Lemma expect_loop_none_no_timeout fuel : forall start pats buf c c',
